@@ -5,10 +5,11 @@ models of lib/xmlfault.py; for each, EVERY single structural fault at EVERY posi
 duplicate / empty / swap with next sibling / delete all same-named siblings; attribute: delete / empty /
 garble; text node: empty / garbage / broken FEEL; href: retarget to a missing id, to the containing DRG
 element, to every kind of element that transitively requires it, to an XML ancestor, to an element of
-another kind; typeRef: missing name, own / ancestor item definition, item definitions that reference the
+another kind; typeRef: missing name, another simple type, own / ancestor item definition, item definitions that reference the
 owner), sampled pairs of faults, seeded character-level corruption, truncation, a few hostile documents.
 Every mutated text goes through the real `dmntk_model::parse -> ModelEvaluator::new ->
-evaluate_invocable(every invocable x {empty, inputs, inputs+decisions+parameters})` in the driver (8 MiB
+evaluate_invocable(every invocable x 5 input contexts: empty, inputs, inputs+decisions+parameters, the same
+with wrongly typed leaves, the same as wrongly typed scalars)` in the driver (8 MiB
 stack, catch_unwind). Oracle = the channel: panic, process death (stack overflow / abort / sanitizer), confirmed
 hang or a poisoned lock is a violation; errors and nulls are fine.
 """
@@ -144,6 +145,29 @@ def describe(item):
 # ------------------------------------------------------------------------------------------------
 
 
+_SRC = {}
+
+
+def src_slug(loc):
+    """`src=<6 hex>`: hash of the (white-space free) source line the panic location names, read from the tree the
+    driver was built from. Separates two panic sites inside one function without depending on line numbers."""
+    m = re.match(r"^(.*):(\d+)$", loc or "")
+    if not m:
+        return "src=unknown"
+    path, line = m.group(1), int(m.group(2))
+    lines = _SRC.get(path)
+    if lines is None:
+        try:
+            with open(path, encoding="utf-8", errors="replace") as f:
+                lines = f.read().split("\n")
+        except OSError:
+            lines = []
+        _SRC[path] = lines
+    if not (1 <= line <= len(lines)):
+        return "src=unknown"
+    return "src=" + hashlib.sha1("".join(lines[line - 1].split()).encode()).hexdigest()[:6]
+
+
 def norm_panic(p):
     """Panic record with a build-independent `frame`: the first frame that is a dmntk function (generic std
     frames such as `<usize as SliceIndex<[dmntk_model::..]>>::index`, which only the non-inlined builds show,
@@ -161,10 +185,18 @@ def norm_panic(p):
             chosen = f
             break
     q = dict(p)
+    # message class: quoted payloads and digits folded (as panic_signature does), then cut short so that an
+    # unquoted payload at the end of a message (a name, an error text) does not split one defect into many
+    msg = p.get("msg", "")
+    msg = re.sub(r"'[^']*'", "'_'", msg)
+    msg = re.sub(r'"[^"]*"', '"_"', msg)
+    msg = re.sub(r"\d+", "N", msg)
+    q["msg"] = msg[:32]
     if chosen is not None:
         q["frame"] = chosen
     else:
         q["frame"] = re.sub(r":\d+$", "", p.get("loc") or "?")
+    q["frame"] += "!" + src_slug(p.get("loc"))
     return q
 
 
@@ -192,8 +224,8 @@ def judge(rec, sclass):
         tail = " ".join(c.get("stderr", "").split())[-300:]
         return "crash", [(crash_sig(rec, sclass), "process died (%s, rc=%s): %s" % (c.get("signal"), c.get("returncode"), tail))], False, 0, 0
     if "panic" in rec:
-        p = norm_panic(rec["panic"])
-        return "panic-" + str(rec.get("stage")), [(panic_signature(p), "panic during %s: %s at %s" % (rec.get("stage"), p.get("msg"), p.get("loc")))], False, 0, 0
+        p = rec["panic"]
+        return "panic-" + str(rec.get("stage")), [(panic_signature(norm_panic(p)), "panic during %s: %s at %s" % (rec.get("stage"), p.get("msg"), p.get("loc")))], False, 0, 0
     if "parse_err" in rec:
         return "parse_err", [], False, 0, 0
     if "build_err" in rec:
@@ -204,8 +236,8 @@ def judge(rec, sclass):
     n_null = 0
     for r in rec["rs"]:
         if "panic" in r:
-            p = norm_panic(r["panic"])
-            bad.append((panic_signature(p), "panic evaluating invocable %r with input #%s: %s at %s" % (r.get("name"), r.get("k"), p.get("msg"), p.get("loc"))))
+            p = r["panic"]
+            bad.append((panic_signature(norm_panic(p)), "panic evaluating invocable %r with input #%s: %s at %s" % (r.get("name"), r.get("k"), p.get("msg"), p.get("loc"))))
         elif r.get("v") is None:
             n_null += 1
     if rec.get("poisoned"):
@@ -476,8 +508,8 @@ def sample_corruptions(seed, per_model_random, trunc_points):
 def run(rep, tier, seed):
     global MODELS, HOSTILE
     rep.rule = (
-        "a case is one mutated model text pushed through parse -> ModelEvaluator::new -> evaluate_invocable(every invocable x 3 "
-        "input contexts); distinct non-trivial key = (fault kind, element kind [parent/element@attribute]) of the injected fault; "
+        "a case is one mutated model text pushed through parse -> ModelEvaluator::new -> evaluate_invocable(every invocable x 5 "
+        "input contexts: empty, conforming inputs, + decision/parameter names, wrongly typed leaves, wrongly typed scalars); distinct non-trivial key = (fault kind, element kind [parent/element@attribute]) of the injected fault; "
         "distinct mutated texts are counted separately (distinct_mutated_texts)"
     )
     rep.assumptions = [
@@ -723,7 +755,7 @@ def replay(rp):
     variant = r.get("variant", "dbg")
     res, _ = runner.run_single(variant, case, os.path.join(runner.WORK, "replay"), label="c12replay", case_timeout=RERUN_TIMEOUT)
     sig = rp.get("signature", "")
-    sclass = sig.split(":", 2)[2] if sig.startswith(("abort:", "hang:")) and sig.count(":") >= 2 else "replay"
+    sclass = "replay"
     if "timeout" in res:
         label, bad = "timeout", [("hang:" + sclass, "no result within %d s" % RERUN_TIMEOUT)]
     else:
